@@ -15,9 +15,33 @@ fn guarded<T>(f: impl FnOnce() -> T) -> Result<T, String> {
 }
 struct Rng(u64);
 impl Rng { fn next(&mut self) -> u64 { self.0 ^= self.0 << 13; self.0 ^= self.0 >> 7; self.0 ^= self.0 << 17; self.0 } fn below(&mut self, n: u64) -> u64 { self.next() % n } }
-const VOCAB: [&str; 30] = ["status", "commit", "-m", "msg", "-C", "dir", "-Cdir", "-c", "a=b", "-ca=b", "--git-dir", "--git-dir=/x", "/x", "--work-tree=/w", "--no-pager", "-p", "--bare",
+const VOCAB: [&str; 31] = ["status", "commit", "-m", "msg", "-C", "dir", "-Cdir", "-c", "a=b", "-ca=b", "-cfoo", "--git-dir", "--git-dir=/x", "/x", "--work-tree=/w", "--no-pager", "-p", "--bare",
     "--", "--html-path", "--man-path", "--info-path", "--exec-path", "--exec-path=/e", "--namespace", "ns", "-x", "--unknown", "log", "--oneline", "--config-env=a=B"];
 const META_HV: [&str; 4] = ["-h", "--help", "-v", "--version"];
+// Independent model of git's own top-level grammar (git.c handle_options): which token is the subcommand.
+// Some(x): the model's answer; None: the sequence is outside the model (help/version/path-query tokens, bare --exec-path
+// after which git prints and exits, `--opt=` with an empty value).
+const NOVAL: [&str; 13] = ["-p", "--paginate", "-P", "--no-pager", "--no-replace-objects", "--no-lazy-fetch", "--no-optional-locks", "--no-advice", "--bare",
+    "--literal-pathspecs", "--glob-pathspecs", "--noglob-pathspecs", "--icase-pathspecs"];
+const TAKES: [&str; 9] = ["-C", "-c", "--git-dir", "--work-tree", "--namespace", "--config-env", "--list-cmds", "--attr-source", "--super-prefix"];
+fn git_command_model(args: &[String]) -> Option<Option<String>> {
+    let mut i = 0;
+    while i < args.len() {
+        let t = args[i].as_str();
+        if t == "--" { return Some(args.get(i + 1).cloned()); }
+        if META_HV.contains(&t) || ["--html-path", "--man-path", "--info-path", "--exec-path"].contains(&t) { return None; }
+        if NOVAL.contains(&t) { i += 1; continue; }
+        if TAKES.contains(&t) { i += 2; continue; }                         // detached value: the next token, whatever it looks like
+        if t.starts_with("-C") || t.starts_with("-c") { i += 1; continue; }   // sticky value
+        if let Some(eq) = t.find('=') {
+            let name = &t[..eq];
+            if name == "--exec-path" || (name.starts_with("--") && TAKES.contains(&name)) { if eq + 1 == t.len() { return None; } i += 1; continue; }
+        }
+        if t.starts_with('-') { return Some(None); }                        // unknown top-level option: git stops with an error, no subcommand
+        return Some(Some(t.to_string()));
+    }
+    Some(None)
+}
 // position of the subcommand as git itself sees it is not modelled; the exception applies when a help/version token occurs anywhere (conservative)
 fn chk(c: &mut Ctx, args: &[String]) {
     c.evaluated += 1;
@@ -32,7 +56,11 @@ fn chk(c: &mut Ctx, args: &[String]) {
                 let strip = |v: &[String]| -> Vec<String> { v.iter().filter(|a| !path_q.contains(&a.as_str())).cloned().collect() };
                 // the only difference is where the path-query tokens ended up (dropped before a subcommand, or moved behind later global options)
                 let clause = if strip(args) == strip(&out) && strip(args).len() != args.len() { "path_query_option_not_kept_in_place" } else { "argv_preserved" };
-                c.fail("region_parse_main", clause, input, out.join(" "), "the argv the user typed, in order".into());
+                c.fail("region_parse_main", clause, input.clone(), out.join(" "), "the argv the user typed, in order".into());
+            }
+            // global options and their values are never mistaken for the subcommand (and the subcommand never for a value)
+            if let Some(want) = git_command_model(args) {
+                if cmd != want { c.fail("region_parse_main", "command_is_git_subcommand", input, format!("command={:?}", cmd), format!("command={:?} (first token that is neither a global option nor the value of one)", want)); }
             }
         }
         Err(p) => c.fail("region_parse_main", "safety", input, p, "no panic".into()),
